@@ -42,6 +42,10 @@ pub enum Act {
     /// deliver every in-flight message of one class (0..=4 vote kinds, 5 = certificates) for the
     /// slot cursor+dslot to the nodes in the mask
     DeliverWhere { what: u8, dslot: i8, to_mask: u16 },
+    /// a split round: the leader's block reaches only the nodes in the mask, the others time out
+    /// and skip; then skip votes, notar votes, the late block, certificates and fallback votes are
+    /// delivered to everybody in the order-th permutation
+    SplitRound { got_block: u16, order: u8 },
 }
 
 #[derive(Clone, Debug, Serialize, Deserialize)]
@@ -93,7 +97,7 @@ impl Property for C01 {
         let vk = prop_oneof![4 => Just(VKind::Notar), 2 => Just(VKind::NotarFallback), 3 => Just(VKind::Skip), 2 => Just(VKind::SkipFallback), 3 => Just(VKind::Final)];
         let ck = prop_oneof![Just(CKind::Notar), Just(CKind::NotarFallback), Just(CKind::Skip), Just(CKind::FastFinal), Just(CKind::Final)];
         let act = prop_oneof![
-            8 => (mask.clone(), 0u8..4).prop_map(|(to_mask, flush)| Act::Honest { to_mask, flush }),
+            8 => (prop_oneof![mask.clone(), any::<u16>()], 0u8..4).prop_map(|(to_mask, flush)| Act::Honest { to_mask, flush }),
             4 => (0u8..3, any::<u16>(), any::<u16>()).prop_map(|(tag, parent, to_mask)| Act::Propose { tag, parent, to_mask }),
             2 => (any::<u16>(), any::<u16>()).prop_map(|(block, to_mask)| Act::Announce { block, to_mask }),
             6 => (any::<u16>(), any::<u16>()).prop_map(|(msg, to_mask)| Act::Deliver { msg, to_mask }),
@@ -105,6 +109,7 @@ impl Property for C01 {
             1 => any::<u8>().prop_map(|node| Act::Crash { node }),
             4 => (any::<u16>(), any::<u16>(), 0u8..3).prop_map(|(split_mask, parent2, flush)| Act::Equivocate { split_mask, parent2, flush }),
             8 => (0u8..6, prop_oneof![4 => Just(0i8), 2 => Just(-1i8), 1 => Just(-2i8)], any::<u16>()).prop_map(|(what, dslot, to_mask)| Act::DeliverWhere { what, dslot, to_mask }),
+            6 => (any::<u16>(), 0u8..120).prop_map(|(got_block, order)| Act::SplitRound { got_block, order }),
         ];
         (stakes, prop::collection::vec(prop_oneof![3 => 0u8..3, 1 => any::<u8>()], 3), prop_oneof![1 => Just(0u8), 3 => Just(1u8), 2 => Just(2u8)], any::<u64>(), prop::collection::vec(act, 1..70))
             .prop_map(|(stakes, byz_order, byz_count, seed, acts)| Case { stakes, byz_order, byz_count, seed, acts })
@@ -145,8 +150,11 @@ struct World {
     /// votes seen on the wire: (kind, slot, tag) -> signers
     wire_votes: BTreeMap<(VKind, u64, u64), BTreeSet<usize>>,
     valid_certs: HashMap<Vec<u8>, Option<ValidatedCert>>,
+    valid_votes: HashMap<Vec<u8>, Option<ValidatedVote>>,
     proposed_by_correct: BTreeSet<u64>,
     last_finalized: Vec<u64>,
+    events_scanned: Vec<usize>,
+    skip_certs: BTreeMap<u64, Vec<usize>>,
     equivocation: bool,
     competing: bool,
 }
@@ -188,7 +196,8 @@ impl World {
                         let tag = c.hash.as_ref().map(|h| tag_of(h, &self.blocks)).unwrap_or(0);
                         self.wire_votes.entry((c.kind, c.slot, tag)).or_default().insert(c.signer);
                         // loop-back to the sender's own pool
-                        if let Ok(vv) = ValidatedVote::try_new(v.clone(), ep)
+                        let vv = self.valid_votes.entry(bytes.clone()).or_insert_with(|| ValidatedVote::try_new(v.clone(), ep).ok()).clone();
+                        if let Some(vv) = vv
                             && let Call::Panicked(p) = self.nodes[i].as_mut().unwrap().add_vote(vv).await
                         {
                             return self.panic(out, &p, i);
@@ -221,7 +230,10 @@ impl World {
         }
         match m {
             ConsensusMessage::Vote(v) => {
-                let Ok(vv) = ValidatedVote::try_new(v.clone(), ep) else { return true };
+                // every node verifies the signature itself; the verdict is a pure function of the bytes
+                let key = wincode::serialize(v).unwrap_or_default();
+                let vv = self.valid_votes.entry(key).or_insert_with(|| ValidatedVote::try_new(v.clone(), ep).ok()).clone();
+                let Some(vv) = vv else { return true };
                 if let Call::Panicked(p) = self.nodes[to].as_mut().unwrap().add_vote(vv).await {
                     return self.panic(out, &p, to);
                 }
@@ -265,7 +277,6 @@ impl World {
         // through a descendant may legitimately also carry a skip certificate: the protocol lets a
         // leader build on a notar-fallback-certified block of a skip-certified slot.
         let mut direct: BTreeMap<u64, Vec<usize>> = BTreeMap::new();
-        let mut skipped: BTreeMap<u64, Vec<usize>> = BTreeMap::new();
         for i in 0..self.n {
             let Some(node) = self.nodes[i].as_ref() else { continue };
             for (f, imp, _) in node.pool.verif_fin_log() {
@@ -279,13 +290,14 @@ impl World {
                     fin.entry(b.0.inner()).or_default().entry(tag_of(&b.1, &self.blocks)).or_default().push(i);
                 }
             }
-            for (_, e) in &node.events {
+            for (_, e) in &node.events[self.events_scanned[i]..] {
                 if let PoolEvent::CertCreated(Cert::Skip(_)) = e
                     && let PoolEvent::CertCreated(c) = e
                 {
-                    skipped.entry(c.slot().inner()).or_default().push(i);
+                    self.skip_certs.entry(c.slot().inner()).or_default().push(i);
                 }
             }
+            self.events_scanned[i] = node.events.len();
             let fs = node.pool.finalized_slot().inner();
             out.checks += 1;
             if fs < self.last_finalized[i] {
@@ -300,7 +312,7 @@ impl World {
                 out.violate("C01/conflicting-finalisation", format!("step {step}: slot {slot} finalised with different blocks: {tags:?} (tag -> nodes)"));
                 return false;
             }
-            if let (Some(nodes), Some(dn)) = (skipped.get(slot), direct.get(slot)) {
+            if let (Some(nodes), Some(dn)) = (self.skip_certs.get(slot), direct.get(slot)) {
                 out.violate("C01/finalised-and-skip-certified", format!("step {step}: slot {slot} is finalised by certificates at nodes {dn:?} and skip-certified at nodes {nodes:?}"));
                 return false;
             }
@@ -366,8 +378,11 @@ async fn run(case: &Case) -> Outcome {
         seen: BTreeSet::new(),
         wire_votes: BTreeMap::new(),
         valid_certs: HashMap::new(),
+        valid_votes: HashMap::new(),
         proposed_by_correct: BTreeSet::new(),
         last_finalized: vec![0; n],
+        events_scanned: vec![0; n],
+        skip_certs: BTreeMap::new(),
         equivocation: false,
         competing: false,
     };
@@ -375,10 +390,17 @@ async fn run(case: &Case) -> Outcome {
     let mut tip: (u64, u64) = (0, 0);
     let mask_nodes = |mask: u16, n: usize| -> Vec<usize> { (0..n).filter(|i| mask >> i & 1 == 1).collect() };
 
-    for (step, act) in case.acts.iter().enumerate() {
+    let mut pending: Vec<Act> = case.acts.iter().rev().cloned().collect();
+    let mut step = 0usize;
+    while let Some(act) = pending.pop() {
+        step += 1;
+        if step > 600 {
+            break;
+        }
         for node in w.nodes.iter_mut().flatten() {
             node.step = step;
         }
+        let act = &act;
         match act {
             Act::Next => cursor += 1,
             Act::Wait { ms } => {
@@ -539,6 +561,31 @@ async fn run(case: &Case) -> Outcome {
                     }
                 }
             }
+            Act::SplitRound { got_block, order } => {
+                // expand into elementary actions on the same world
+                let mut steps: Vec<u8> = vec![0, 1, 2, 3, 4];
+                let mut k = *order as usize;
+                let mut perm = Vec::new();
+                for f in (1..=5usize).rev() {
+                    perm.push(steps.remove(k % f));
+                    k /= f;
+                }
+                let mut sub: Vec<Act> = vec![Act::Honest { to_mask: *got_block, flush: 0 }, Act::Wait { ms: 800 }];
+                for st in perm {
+                    sub.push(match st {
+                        0 => Act::DeliverWhere { what: 2, dslot: 0, to_mask: u16::MAX },
+                        1 => Act::DeliverWhere { what: 0, dslot: 0, to_mask: u16::MAX },
+                        2 => Act::Honest { to_mask: u16::MAX, flush: 0 },
+                        3 => Act::DeliverWhere { what: 5, dslot: 0, to_mask: u16::MAX },
+                        _ => Act::DeliverWhere { what: if *order % 2 == 0 { 3 } else { 1 }, dslot: 0, to_mask: u16::MAX },
+                    });
+                }
+                sub.push(Act::Flush { rounds: 2, to_mask: u16::MAX });
+                sub.push(Act::Next);
+                pending.extend(sub.into_iter().rev());
+                out.label("split-round");
+                continue;
+            }
             Act::DeliverWhere { what, dslot, to_mask } => {
                 if !w.collect(&mut out, &ep).await {
                     return finish(out, w);
@@ -677,7 +724,24 @@ async fn run(case: &Case) -> Outcome {
     finish(out, w)
 }
 
-fn finish(out: Outcome, w: World) -> Outcome {
+fn finish(mut out: Outcome, w: World) -> Outcome {
+    for node in w.nodes.iter().flatten() {
+        for (_, e) in &node.events {
+            match e {
+                PoolEvent::SafeToNotar(_) => out.label("event:safe-to-notar"),
+                PoolEvent::SafeToSkip(_) => out.label("event:safe-to-skip"),
+                _ => {}
+            }
+        }
+    }
+    for ((k, _, _), _) in &w.wire_votes {
+        match k {
+            VKind::NotarFallback => out.label("vote:notar-fallback"),
+            VKind::SkipFallback => out.label("vote:skip-fallback"),
+            VKind::Final => out.label("vote:final"),
+            _ => {}
+        }
+    }
     for node in w.nodes.iter().flatten() {
         node.votor_task.abort();
     }
